@@ -78,12 +78,22 @@ macro_rules
       | refine insertAt_ext' (by assumption) ?_
       | refine stepBack_ext' (by assumption) ?_))
 
+theorem roundCarry_ext' {start index : Nat} {s0 s : List Nat} {r : List Nat × Nat × Bool}
+    (h : roundCarry start s index = .ok r) (h0 : Ext start s0 s) : Ext start s0 r.1 := by
+  unfold roundCarry at h
+  simp only [bind, Except.bind, pure, Except.pure] at h
+  repeat' split at h
+  all_goals (cases h; try ext_chain)
+
 theorem roundStringNumber_ext' {start index : Nat} {ru : Bool} {s0 s : List Nat} {r : List Nat × Nat × Bool}
     (h : roundStringNumber start s index ru = .ok r) (h0 : Ext start s0 s) : Ext start s0 r.1 := by
   unfold roundStringNumber at h
   simp only [bind, Except.bind, pure, Except.pure] at h
   repeat' split at h
-  all_goals (cases h; try ext_chain)
+  all_goals first
+    | (cases h; done)
+    | (cases h; exact h0)
+    | exact roundCarry_ext' h h0
 
 theorem restoreZeros_ext' {start : Nat} : ∀ (zeros : Nat) {s0 s : List Nat} {index : Nat} {r : List Nat × Nat},
     restoreZeros start zeros s index = .ok r → Ext start s0 s → Ext start s0 r.1 := by
